@@ -78,13 +78,22 @@ TypeDeps(types, n) == {types[n].fields[i].to : i \in {j \in DOMAIN types[n].fiel
 -----------------------------------------------------------------------------
 (* C12: listeners                                                            *)
 
-\* emits : <<[name |-> event name, receiver |-> class, placed |-> placement, lit |-> BOOLEAN]>>
+\* emits : <<[name |-> event name, receiver |-> class, frames |-> <<enclosing frames>>, placed |-> tail form, lit |-> BOOLEAN]>>
 DocumentedReceivers == {"app", "window", "webview", "self_app", "self_window", "method_result"}
-\* placements the analyser documents; a closure body or a nested fn is not clearly "a top-level
-\* function body at any block nesting": emits there are neither required nor forbidden
-DocumentedPlacements == {"stmt", "let_init", "if_then", "if_else", "match_arm_expr", "match_arm_block", "loop",
-                         "while", "for", "nested_block", "try_op", "await", "unwrap_recv", "ok_recv"}
-Required(em) == em.receiver \in DocumentedReceivers /\ em.placed \in DocumentedPlacements /\ em.lit
+\* The call sits in a tail form (`placed`) inside a path of enclosing frames (outermost first).  Documented by
+\* the analyser / the property: expression statement (with or without the trailing semicolon), let initialiser,
+\* if/else branches (incl. `else if` chains and `if let`), match arms, loop/while/for bodies, nested (labelled)
+\* blocks, under ? and .await, as receiver of .unwrap()/.ok().  A closure body, a nested fn, an async block and an
+\* unsafe block are not clearly "a top-level function body at any block nesting", and `return e` / a condition
+\* are not listed: emits there are neither required nor forbidden.
+DocumentedPlacements == {"stmt", "let_init", "match_arm_expr", "try_op", "await", "unwrap_recv", "ok_recv", "tail_expr"}
+DocumentedFrames == {"if_then", "if_else", "else_if", "else_if_else", "if_let", "match_arm_block", "loop",
+                     "labeled_loop", "while", "while_let", "for", "nested_block", "labeled_block",
+                     "let_init_if", "let_init_match"}
+Required(em) == /\ em.receiver \in DocumentedReceivers
+                /\ em.placed \in DocumentedPlacements
+                /\ \A i \in DOMAIN em.frames : em.frames[i] \in DocumentedFrames
+                /\ em.lit
 EventNames(emits) == {emits[i].name : i \in {j \in DOMAIN emits : Required(emits[j])}}
 OptionalNames(emits) == {emits[i].name : i \in {j \in DOMAIN emits : ~Required(emits[j]) /\ emits[j].lit}}
 =============================================================================
